@@ -28,8 +28,16 @@ class PhaseBoom(Exception):
   pass
 
 
-class FailureExc(Exception):
+class FailureBase(Exception):
+  """Base class of the listed failure exception: never listed itself."""
+
+
+class FailureExc(FailureBase):
   """Listed in failure_exceptions when the setting says so."""
+
+
+class FailureSub(FailureExc):
+  """Subclass of the listed failure exception: counts as listed."""
 
 
 class DiagBoom(Exception):
@@ -188,6 +196,8 @@ def make_phase(name, beh, ctx):
       test.measurements['m_' + name] = 9.5
     elif m == 'dimset':
       test.measurements['m_' + name][1] = 5
+    elif m in ('dimbad', 'dimgood'):
+      test.measurements['m_' + name][n] = 11 if m == 'dimbad' else 5      # (coordinate = invocation number)
     if r == 'hang':
       CLOCK.hanging.add(threading.current_thread())
       while True:
@@ -214,6 +224,10 @@ def make_phase(name, beh, ctx):
       raise SystemExit(3)       # a BaseException that is not an Exception: the phase thread dies without a result
     if r == 'raise_f':
       raise FailureExc('failure exception in %s' % name)
+    if r == 'raise_fsub':
+      raise FailureSub('subclass of the failure exception in %s' % name)
+    if r == 'raise_fbase':
+      raise FailureBase('base class of the failure exception in %s' % name)
     return {'ok': None, 'continue': h.PhaseResult.CONTINUE, 'fail': h.PhaseResult.FAIL_AND_CONTINUE,
             'skip': h.PhaseResult.SKIP, 'stop': h.PhaseResult.STOP, 'fail_subtest': h.PhaseResult.FAIL_SUBTEST,
             'repeat': h.PhaseResult.REPEAT, 'bad': 42, 'bad0': 0}[r]
@@ -236,6 +250,11 @@ def make_phase(name, beh, ctx):
   if meas == 'nocopy':
     # a validator that cannot be deep-copied: building the phase state fails *inside the executor thread*
     ph = h.measures(h.Measurement('m_' + name).with_validator(NoCopy()))(ph)
+  elif meas in ('dimbad', 'dimgood') or (isinstance(meas, list) and set(meas) <= {'dimbad', 'dimgood'}):
+    # a dimensioned measurement whose points must all lie in [0, 10]
+    from openhtf.util import validators as _v  # pylint: disable=g-import-not-at-top
+    ph = h.measures(h.Measurement('m_' + name).with_dimensions('x').with_validator(
+        _v.dimension_pivot_validate(_v.in_range(0, 10))))(ph)
   elif meas in ('dimunset', 'dimset'):
     # a dimensioned measurement without validators: 'dimunset' never gives it a point, 'dimset' gives it one
     ph = h.measures(h.Measurement('m_' + name).with_dimensions('x'))(ph)
